@@ -50,6 +50,10 @@ type ExtSpec struct {
 	NamePool int `json:"name_pool,omitempty"`
 	// NoPURL makes ToPURL return nil.
 	NoPURL bool `json:"no_purl,omitempty"`
+	// NoPURLMod > 0: packages whose name hashes to 0 mod NoPURLMod have no purl.
+	NoPURLMod int `json:"no_purl_mod,omitempty"`
+	// PurlType is the purl type of the packages ("" = generic).
+	PurlType string `json:"purl_type,omitempty"`
 }
 
 // Hash is the deterministic hash used by all generated behaviour.
@@ -129,8 +133,8 @@ type Call struct {
 type Recorder struct {
 	mu        sync.Mutex
 	Calls     []Call
-	Required  []string // "ext|path" for every FileRequired invocation
-	Events    []string // interleaved event log: "extract:<ext>:<path>", "standalone:<name>", "detector:<name>", "inode:<path>"
+	Required  []string                     // "ext|path" for every FileRequired invocation
+	Events    []string                     // interleaved event log: "extract:<ext>:<path>", "standalone:<name>", "detector:<name>", "inode:<path>"
 	OnExtract func(seq int, ext, p string) // optional hook run at the start of each Extract (C10 cancellation)
 	OnInode   func(n int, p string)
 	inodes    int
@@ -172,7 +176,14 @@ func (e *FSExtractor) ToPURL(p *extractor.Package) *purl.PackageURL {
 	if e.Spec.NoPURL {
 		return nil
 	}
-	return &purl.PackageURL{Type: purl.TypeGeneric, Name: p.Name, Version: p.Version}
+	if e.Spec.NoPURLMod > 0 && Hash("purl|"+p.Name)%uint32(e.Spec.NoPURLMod) == 0 {
+		return nil
+	}
+	typ := e.Spec.PurlType
+	if typ == "" {
+		typ = purl.TypeGeneric
+	}
+	return &purl.PackageURL{Type: typ, Name: p.Name, Version: p.Version}
 }
 
 // Ecosystem implements extractor.Extractor.
